@@ -208,7 +208,7 @@ def step (s : State) : Op → Option State
       match s.flavour with
       | .returnExceptions =>
         -- `return await asyncio.gather(*tasks)` once every task is done
-        if allDone s1.st then some (returnNow s1) else some s1
+        if s.helper = .active ∧ allDone s1.st then some (returnNow s1) else some s1
       | .raiseFirst =>
         match s.helper, o with
         | .active, .raise e =>
